@@ -376,3 +376,27 @@ Proof.
   - split; reflexivity.
   - split; [|discriminate]. intros H. exfalso. exact (proj1 (loop_not_special c polls 0%nat 0) H).
 Qed.
+
+(* the flag an add_callback observer / result() waiter sees at delivery is already the final one *)
+Lemma future_at_delivery : forall e c polls,
+  f_at_delivery (schema_change_path e c polls) = Some (f_is_schema_agreed (schema_change_path e c polls)).
+Proof.
+  intros e c polls. unfold schema_change_path. destruct (cluster_shutdown e); [reflexivity|].
+  destruct (wait c (cc_shutdown e) None polls) as [ev o]. destruct (refresh_schema e o) as [[b|] rf]; reflexivity.
+Qed.
+
+(* table rows: a peer is matched to a host by (address, native_port) -- the cluster's default port only stands in for a
+   missing / non-positive native_port *)
+Lemma raw_reported : forall d h local rows v,
+  reported h (RSn d local rows) v <->
+  local = Some (Some v) \/ exists a p, In (a, p, Some v) rows /\ counted h (row_endpoint d (a, p, Some v)) = true.
+Proof.
+  intros d h local rows v. unfold reported, RSn. simpl. split.
+  - intros [H|[e [Hin Hc]]]; [left; exact H|]. right. apply in_map_iff in Hin. destruct Hin as [[[a p] v'] [Heq Hin]].
+    simpl in Heq. injection Heq as He Hv. subst v'. exists a, p. split; [exact Hin|]. rewrite <- He in Hc. exact Hc.
+  - intros [H|[a [p [Hin Hc]]]]; [left; exact H|]. right. exists (row_endpoint d (a, p, Some v)). split; [|exact Hc].
+    apply in_map_iff. exists (a, p, Some v). split; [reflexivity|exact Hin].
+Qed.
+
+Lemma row_endpoint_port : forall d a p v, 0 < p -> row_endpoint d (a, Some p, v) = (a, p).
+Proof. intros d a p v H. unfold row_endpoint. assert (E : (0 <? p) = true) by lia. rewrite E. reflexivity. Qed.
